@@ -311,3 +311,14 @@ impl Report {
         std::process::exit(0);
     }
 }
+
+/// Thorough budgets in the sources are nominal; they are multiplied by this factor (default 0.4,
+/// override with RDBCHECK_THOROUGH_SCALE) so that a full thorough pass over the 17 properties
+/// stays within a working day even when every component runs into its cap.
+pub fn thorough_scale() -> f32 {
+    std::env::var("RDBCHECK_THOROUGH_SCALE").ok().and_then(|s| s.parse().ok()).unwrap_or(0.4)
+}
+
+pub fn scaled(d: std::time::Duration) -> std::time::Duration {
+    d.mul_f32(thorough_scale())
+}
